@@ -77,6 +77,9 @@ func c04Algos(p *Prog, l *Ledger) []*c04Algo {
 			continue
 		}
 		a := &c04Algo{T: T, Est: info.Field, Float: info.FloatInt}
+		if info.Published != nil && l != nil && l.Prop == "C04" {
+			c04PublishedCopy(p, l, T, info)
+		}
 		st := T.Underlying().(*types.Struct)
 		for i := 0; i < st.NumFields(); i++ {
 			n := strings.ToLower(st.Field(i).Name())
@@ -504,4 +507,66 @@ func c04Index(p *Prog, l *Ledger, f *ssa.Function, ia *ssa.IndexAddr, g *ssa.Glo
 		return len(bad) < 2
 	})
 	l.Check(len(bad) == 0 && npaths > 0, "O3", key, p.At(ia), fmt.Sprintf("0 <= index < len(%s) proved on %d paths", g.Name(), npaths), "a sample can index a lookup table out of range (panic)", bad...)
+}
+
+// c04PublishedCopy: EstimatedLimit serves an atomically published copy of the estimate. What is reported is the
+// estimate only if every store of the estimate is followed, before its function returns, by a store of the copy (the
+// copy's stores are conversions of the value just stored - publishedCopyOf). A store of the estimate that returns
+// without publishing (a probe path that assigns the field directly) leaves readers on the old value.
+func c04PublishedCopy(p *Prog, l *Ledger, T *types.Named, info *EstimateInfo) {
+	key := p.TypeKey(T) + "/published-copy"
+	if l.seenPublished == nil {
+		l.seenPublished = map[string]bool{}
+	}
+	if l.seenPublished[key] {
+		return
+	}
+	l.seenPublished[key] = true
+	var bad []string
+	n := 0
+	for _, f := range p.Funcs {
+		if !p.InModule(f) {
+			continue
+		}
+		var stores []FieldAccess
+		for _, a := range p.Accesses(f) {
+			if a.Write && !a.Atomic && sameField(a.Field, info.Field) {
+				stores = append(stores, a)
+			}
+		}
+		if len(stores) == 0 {
+			continue
+		}
+		isPub := func(ins ssa.Instruction) bool {
+			for _, a := range p.Accesses(f) {
+				if a.Instr == ins && a.Write && sameField(a.Field, *info.Published) {
+					return true
+				}
+			}
+			return false
+		}
+		EnumPaths(f, 100000, func(pa *Path) bool {
+			if !pa.IsReturn() {
+				return true
+			}
+			pending := ssa.Instruction(nil)
+			pa.Each(func(step int, ins ssa.Instruction) bool {
+				for _, s := range stores {
+					if s.Instr == ins {
+						pending = ins
+						n++
+					}
+				}
+				if pending != nil && isPub(ins) {
+					pending = nil
+				}
+				return true
+			})
+			if pending != nil {
+				bad = append(bad, fmt.Sprintf("%s: the estimate is stored and the function returns without publishing it: %s", p.At(pending), joinWitness(p.DescribePath(pa))))
+			}
+			return len(bad) < 3
+		})
+	}
+	l.Check(len(bad) == 0 && n > 0, "O1", key, p.FuncPos(info.Fn), fmt.Sprintf("EstimatedLimit serves a published copy of %s; every store of the estimate (%d on the paths enumerated) is followed by a store of the copy before its function returns", info.Field.Name, n), "EstimatedLimit can report an estimate other than the one the algorithm holds", bad...)
 }
